@@ -156,6 +156,41 @@ def data():
         body += [Let("v%d" % k, "int", I(v)), Let("s%d" % k, "string", Call("int_to_string", V("v%d" % k))), Println(V("s%d" % k)),
                  Println(Call("str_length", V("s%d" % k))), Println(Bin("+", S("<"), Bin("+", V("s%d" % k), S(">"))))]
     out["int_to_string_boundaries"] = prog(body)
+    # struct literal with fields listed out of definition order (pure values: order of evaluation does not matter)
+    out["struct_fields_out_of_order"] = prog([Let("p", "Point", SLit("Point", [("y", I(2)), ("x", I(1))])), Println(Field(V("p"), "x")), Println(Field(V("p"), "y")),
+                                             Let("q", "Point", SLit("Point", [("y", Field(V("p"), "x")), ("x", Field(V("p"), "y"))])), Println(Field(V("q"), "x")), Println(Field(V("q"), "y"))])
+    out["struct_through_calls"] = prog([Let("p", "Point", Call("mk", I(3), I(4))), Println(Call("sumxy", V("p"))), Println(Call("sumxy", Call("swap", V("p")))), Println(Field(Call("swap", V("p")), "x"))],
+        [Func("mk", [("a", "int"), ("b", "int")], "Point", [Ret(SLit("Point", [("x", V("a")), ("y", V("b"))]))]),
+         Func("swap", [("p", "Point")], "Point", [Ret(SLit("Point", [("x", Field(V("p"), "y")), ("y", Field(V("p"), "x"))]))]),
+         Func("sumxy", [("p", "Point")], "int", [Ret(Bin("+", Bin("*", Field(V("p"), "x"), I(10)), Field(V("p"), "y")))])])
+    out["string_compare_built"] = prog([Let("a", "string", Bin("+", S("ab"), S("cd"))), Let("b", "string", Bin("+", S("a"), S("bcd"))), Println(Bin("==", V("a"), V("b"))),
+                                        Println(Bin("!=", V("a"), V("b"))), Println(Bin("==", V("a"), S("abce"))), Println(Bin("==", Bin("+", V("a"), S("")), V("b"))),
+                                        Println(Bin("==", Call("int_to_string", I(12)), S("12")))])
+    out["array_of_strings"] = prog([Let("a", "array<string>", ALit("string", [S("x"), S("yy")]), True), Ex(Call("array_push", V("a"), Bin("+", S("z"), S("z")))),
+                                    ForIn("w", V("a"), [Println(V("w"))]), Println(Call("array_length", V("a"))), Ex(Call("array_set", V("a"), I(1), S("changed"))),
+                                    Println(Call("at", V("a"), I(1))), Println(Call("array_pop", V("a"))), Println(Call("array_length", V("a")))])
+    out["global_array_and_counter"] = prog([Ex(Call("note", I(5))), Ex(Call("note", I(7))), Println(Call("array_length", V("log"))), Println(Call("at", V("log"), I(1))), Println(V("total"))],
+        [Func("note", [("v", "int")], "int", [Ex(Call("array_push", V("log"), V("v"))), Set("total", Bin("+", V("total"), V("v"))), Ret(V("total"))])],
+        globals_=[("log", "array<int>", True, ALit("int", [I(0)])), ("total", "int", True, I(0))])
+    out["nested_if_else_chain"] = prog([For("i", I(0), I(6), [If(Bin("<", V("i"), I(2)), [Println(S("low"))], [If(Bin("<", V("i"), I(4)), [Println(S("mid"))], [If(Bin("==", V("i"), I(4)), [Println(S("four"))], [Println(S("high"))])])])])])
+    out["while_complex_condition"] = prog([Let("i", "int", I(0), True), Let("j", "int", I(10), True),
+                                           While(Bin("and", Bin("<", V("i"), V("j")), Bin("or", Bin("!=", Bin("%", V("i"), I(7)), I(6)), Bin(">", V("j"), I(20)))),
+                                                 [Set("i", Bin("+", V("i"), I(1))), Set("j", Bin("-", V("j"), I(1)))]), Println(V("i")), Println(V("j"))])
+    out["recursion_accumulator"] = prog([Println(Call("sumto", I(50), I(0))), Println(Call("gcd", I(1071), I(462))), Println(Call("pw", I(3), I(13)))],
+        [Func("sumto", [("n", "int"), ("acc", "int")], "int", [If(Bin("==", V("n"), I(0)), [Ret(V("acc"))], []), Ret(Call("sumto", Bin("-", V("n"), I(1)), Bin("+", V("acc"), V("n"))))]),
+         Func("gcd", [("a", "int"), ("b", "int")], "int", [If(Bin("==", V("b"), I(0)), [Ret(V("a"))], []), Ret(Call("gcd", V("b"), Bin("%", V("a"), V("b"))))]),
+         Func("pw", [("b", "int"), ("e", "int")], "int", [If(Bin("==", V("e"), I(0)), [Ret(I(1))], []), Ret(Bin("*", V("b"), Call("pw", V("b"), Bin("-", V("e"), I(1)))))])])
+    out["match_in_loop_accumulate"] = prog([Let("shapes", "int", I(0), True), For("i", I(0), I(4), [Let("s", "Shape", Call("pick", V("i"))),
+                                            Match(V("s"), [("Shape.Circle", "c", [Set("shapes", Bin("+", V("shapes"), Field(V("c"), "r")))]),
+                                                           ("Shape.Rect", "q", [Set("shapes", Bin("+", V("shapes"), Bin("*", Field(V("q"), "w"), Field(V("q"), "h"))))]),
+                                                           ("Shape.Empty", "e", [Set("shapes", Bin("-", V("shapes"), I(1)))])])]), Println(V("shapes"))],
+        [Func("pick", [("i", "int")], "Shape", [If(Bin("==", Bin("%", V("i"), I(3)), I(0)), [Ret(ULit("Shape.Circle", [("r", V("i"))]))], []),
+                                                 If(Bin("==", Bin("%", V("i"), I(3)), I(1)), [Ret(ULit("Shape.Rect", [("w", V("i")), ("h", I(5))]))], []), Ret(ULit("Shape.Empty", []))])])
+    out["wrapping_arithmetic_runtime"] = prog([Let("big", "int", I(9223372036854775807)), Let("one", "int", Call("t", I(1))), Println(Bin("+", V("big"), V("one"))),
+                                               Println(Bin("*", V("big"), Bin("+", V("one"), V("one")))), Println(Bin("-", Un("-", V("big")), Bin("+", V("one"), V("one")))),
+                                               Println(Un("-", Bin("-", Un("-", V("big")), V("one"))))])
+    out["division_signs"] = prog([Let("a", "int", Call("t", I(-7))), Let("b", "int", Call("t", I(2))), Println(Bin("/", V("a"), V("b"))), Println(Bin("%", V("a"), V("b"))),
+                                  Println(Bin("/", V("b"), V("a"))), Println(Bin("%", V("b"), V("a"))), Println(Bin("/", Un("-", V("a")), Un("-", V("b")))), Println(Bin("%", V("a"), Un("-", V("b"))))])
     out["if_expr_block"] = prog([Let("k", "int", I(5)), Println(IfX(Bin(">", V("k"), I(3)), I(1), I(2)))])
     out["exit_codes"] = prog([Println(S("bye"))], ret=300)
     out["assert_fail_runtime"] = prog([Println(S("before")), Assert(Bin("==", Call("t", I(1)), I(2))), Println(S("after"))])
